@@ -819,6 +819,18 @@ func c08Replay(r *vcore.Run, sub string, raw json.RawMessage) {
 	}
 	e := &c08Exec{h: h}
 	res := vsched.Run(h.Schedule, false, e.body)
+	if res.Failed == 3 {
+		// the recorded schedule names choices that do not exist on this tree (it was recorded on other
+		// code: scheduling points differ). The artefact is then the harness: explore all its schedules.
+		fmt.Println("replay: the recorded schedule does not apply to this tree (" + res.FailMsg + "); exploring every schedule of the harness instead")
+		h.Schedule = nil
+		bound := -1
+		if strings.HasPrefix(h.Name, "G") {
+			bound = 2
+		}
+		c08Explore(r, h, bound, false, 5*time.Minute)
+		return
+	}
 	if res.Failed != 0 {
 		r.Violate("sched", h.prop()+"/"+c08FP(h)+"/failed", h, "runs to completion", res.FailMsg)
 		return
